@@ -323,6 +323,8 @@ let answer (c : cur) : string =
     let b = !mst in let (s, res) = batch_set b rs f in mst := s; with_ops b (match res with Ok _ -> "ok" | Err e -> fmt_err e)
   | "get" -> let k = parse_key (next c) in let f = bool_of (next c) in let b = !mst in
     let (s, res) = get_record b k f in mst := s; with_ops b (match res with Ok r -> fmt_rec r | Err e -> fmt_err e)
+  | "getc" -> let k = parse_key (next c) in let f = bool_of (next c) in let b = !mst in
+    let (s, res) = get_committed b k f in mst := s; with_ops b (match res with Ok r -> fmt_rec r | Err e -> fmt_err e)
   | "bget" -> let k = int_of_string (next c) in let ks = List.init k (fun _ -> parse_key (next c)) in let f = bool_of (next c) in
     let b = !mst in let (s, res) = batch_get b ks f in mst := s;
     with_ops b (match res with Ok rs -> sorted_strs (List.map fmt_rec rs) | Err e -> fmt_err e)
